@@ -51,7 +51,7 @@ func c11GenChain(rng *rand.Rand) *c11Ctx {
 	t := int64(10)
 	gaps := []int64{1, 2, 5, 10, 30}
 	for h := 1; h <= c.N; h++ {
-		if h > 1 && rng.Intn(4) == 0 {
+		if h > 1 && rng.Intn(3) == 0 {
 			cur = c11CopyVals(cur)
 			switch rng.Intn(3) {
 			case 0:
@@ -123,7 +123,13 @@ func c11DvFamily(c *c11Ctx, pfx string, h int64, val string, rng *rand.Rand) {
 		c.Dv[pfx+mut] = &d
 	}
 	add("genuine", func(d *c11Dv) {})
-	c.Pairs["q"+pfx] = &c11Pair{H: h, Val: val, BlkA: "b1", BlkB: "b2", Dv: pfx + "genuine"}
+	late := pfx + "genuine"
+	if nv, in := c.valsAt(h + 1)[val]; !in {
+		late = "nil"
+	} else if nv != g.Power || c11Total(c.valsAt(h+1)) != g.Total {
+		late = pfx + "valsnext"
+	}
+	c.Pairs["q"+pfx] = &c11Pair{H: h, Val: val, BlkA: "b1", BlkB: "b2", Dv: pfx + "genuine", Late: late}
 	add("total", func(d *c11Dv) { d.Total++ })
 	add("power", func(d *c11Dv) { d.Power++ })
 	add("timeplus", func(d *c11Dv) { d.Time++ })
